@@ -147,5 +147,23 @@ Built(kind, tag) ==
          El("m", t, m1.ops \o m2.ops \o <<NewT("d", "TLVTableReply"), Set("d", "MaxSpace", t.VendorData.MaxSpace), Set("d", "MaxFields", t.VendorData.MaxFields),
                                          Set("d", "TlvMaps", <<Ref("t1"), Ref("t2")>>), New("m", "NewNXTVendorHeader", <<<<0, 0, 0, 26>>>>), Set("m", "Header.Xid", t.Header.Xid),
                                          Set("m", "VendorData", Ref("d"))>>)
+\* kinds whose Go representation follows the OpenFlow 1.0 record layouts (known finding of C04): no tree is stated for them, but the
+\* library's own encoder / decoder pair is still under the oracle-free predicates (sizes, repeatability, round trip)
+LibKinds == {"libtable", "libport", "libqueue", "libportreq", "libqueuereq"}
+LibBuilt(kind, tag) ==
+  LET hdr(n, type) == <<New(Nm(n, 9), "NewOfp13Header", <<>>), Set(n, "Header", Ref(Nm(n, 9))), Set(n, "Header.Type", <<type>>), Set(n, "Header.Xid", Xid(tag))>>
+      port(r, i) == <<New(r, "NewPortStats", <<>>), Set(r, "PortNo", V(tag + i, 2))>>
+                    \o [k \in 1..12 |-> Set(r, (<<"RxPackets", "TxPackets", "RxBytes", "TxBytes", "RxDropped", "TxDropped", "RxErrors", "TxErrors", "RxFrameErr", "RxOverErr", "RxCRCErr", "Collisions">>)[k], V(tag + i + k, 8))]
+      table(r, i) == <<New(r, "NewTableStats", <<>>), Set(r, "TableId", <<i>>), Set(r, "Name", V(tag + i, 32)), Set(r, "Wildcards", V(tag + i + 1, 4)), Set(r, "MaxEntries", V(tag + i + 2, 4)),
+                       Set(r, "ActiveCount", V(tag + i + 3, 4)), Set(r, "LookupCount", V(tag + i + 4, 8)), Set(r, "MatchedCount", V(tag + i + 5, 8))>>
+      queue(r, i) == <<NewT(r, "QueueStats"), Set(r, "PortNo", V(tag + i, 2)), Set(r, "QueueId", V(tag + i + 1, 4)), Set(r, "TxBytes", V(tag + i + 2, 8)), Set(r, "TxPackets", V(tag + i + 3, 8)),
+                       Set(r, "TxErrors", V(tag + i + 4, 8))>>
+      reply(mt, recops) == recops[1] \o recops[2] \o <<NewT("m", "MultipartReply")>> \o hdr("m", 19) \o <<Set("m", "Type", <<0, mt>>), Set("m", "Flags", <<0, 0>>), Set("m", "Body", <<Ref("r1"), Ref("r2")>>)>>
+      request(mt, bops) == bops \o <<NewT("m", "MultipartRequest")>> \o hdr("m", 18) \o <<Set("m", "Type", <<0, mt>>), Set("m", "Flags", <<0, 0>>), Set("m", "Body", Ref("b"))>>
+  IN CASE kind = "libport" -> El("m", [T |-> "MultipartReply"], reply(4, <<port("r1", 1), port("r2", 2)>>))
+       [] kind = "libtable" -> El("m", [T |-> "MultipartReply"], reply(3, <<table("r1", 1), table("r2", 2)>>))
+       [] kind = "libqueue" -> El("m", [T |-> "MultipartReply"], reply(5, <<queue("r1", 1), queue("r2", 2)>>))
+       [] kind = "libportreq" -> El("m", [T |-> "MultipartRequest"], request(4, <<New("b", "NewPortStatsRequest", <<>>), Set("b", "PortNo", V(tag, 2))>>))
+       [] kind = "libqueuereq" -> El("m", [T |-> "MultipartRequest"], request(5, <<New("b", "NewQueueStatsRequest", <<>>), Set("b", "PortNo", V(tag, 2)), Set("b", "QueueId", V(tag + 1, 4))>>))
 GoType(t) == CASE t.T = "Header" -> "*common.Header" [] t.T = "Hello" -> "*common.Hello" [] OTHER -> "*openflow13." \o t.T
 =============================================================================
